@@ -7,6 +7,9 @@
     c16.open N k row_1 … row_k        rows = result of the cursor's query now     → ok | E<code>
     c16.fetch N next|prior|first|last | abs n | rel n                              → row <tok> | none | E<code>
     c16.openfail N E<code>            OPEN when the query's source is gone (`stepOpenFailing`) → E11002 | E11004 | E<code>
+    c16.fetchinto N k pos…           FETCH pos N INTO k variables (`stepFetchInto`; a row token `a,b` has 2 columns)
+    c16.whileinto N k                WHILE v1..vk IN N (`stepWhileInto`)            → rows <n> tok… | E<code>
+    c16.agg P k v1..vk ;; stmt , …   one call of an aggregate over the values, pseudo cursor P (`aggRun`) → trace
     c16.fetchbad N                    position number is not an integer            → E11008
     c16.isopen N [not] | inrange N [not]   CURSOR N IS [NOT] OPEN / IN RANGE (`cursorStatus`) → T | F | U | E<code>
     c16.count N                       → I<n> | E<code>
@@ -119,6 +122,29 @@ def structured (s : Scope String) (cmd : String) (args0 : List String) : Option 
     | none => none
   | _, _ => none
 
+def width (tok : String) : Nat := (tok.splitOn ",").length
+
+/-- commands on the variable count and the aggregates -/
+def extra (s : Scope String) (cmd : String) (args : List String) : Option (Scope String × String) :=
+  match cmd, args with
+  | "fetchinto", n :: k :: pos =>
+    match k.toNat?, parsePos pos with
+    | some k, some p => let r := stepFetchInto width s n p k; some (r.1, showRes r.2)
+    | _, _ => none
+  | "whileinto", [n, k] =>
+    match k.toNat? with
+    | some k => let r := stepWhileInto width s n k; some (r.1, showRes r.2)
+    | none => none
+  | "agg", pname :: k :: rest =>
+    match k.toNat?, splitBy ";;" rest with
+    | some k, [vals, stmts] =>
+      if vals.length ≠ k then none else
+      match ((splitBy "," stmts).filter (fun x => !x.isEmpty)).mapM parseStmt with
+      | some ops => let r := aggRun pname vals ops s; some (r.1, showTrace r.2.1 true)
+      | none => none
+    | _, _ => none
+  | _, _ => none
+
 partial def c16Loop (h out : IO.FS.Stream) (s : Scope String) : IO Unit := do
   let line ← h.getLine
   if line.isEmpty then return ()
@@ -130,6 +156,15 @@ partial def c16Loop (h out : IO.FS.Stream) (s : Scope String) : IO Unit := do
       out.putStrLn "ok"
       c16Loop h out []
     | [_, cmd] =>
+      if cmd = "fetchinto" || cmd = "whileinto" || cmd = "agg" then
+        match extra s cmd (args.filter (fun t => t ≠ "")) with
+        | some (s', line) =>
+          out.putStrLn line
+          c16Loop h out s'
+        | none =>
+          out.putStrLn "bad-op"
+          c16Loop h out s
+      else
       if cmd = "openfail" then
         match args with
         | [n, code] =>
